@@ -81,6 +81,12 @@ func (h *Hist) genWritePath(root *Node) []seg {
 			if s.idx >= n {
 				h.counters["probe:tf-pad-or-append"]++
 			}
+			if s.idx >= 10 {
+				h.counters["probe:tf-multi-digit-index"]++
+			}
+			if lvl >= 2 {
+				h.counters["probe:tf-depth>=3"]++
+			}
 		} else {
 			if cur != nil && len(cur.Fields) > 0 && h.d.Draw("path-key-existing", 3) > 0 {
 				ks := cur.keys()
